@@ -497,10 +497,20 @@ def run(ctx):
         rc, out, err = sh([FALCO, "fmt", arg])
         if rc == 0 and out != c and len(c) < 3000:
             ok_pool.append((c, out))
-    bad_pool = [(b"sub vcl_recv {\n", 1, "parse error"), (b'set req.http.X = "1";\n', 1, "snippet"), (b"sub vcl_recv { error; }\n", None, "formatter crash")]
+    # inputs falco fmt rejects; what it does with each (exit 1, panic = exit 2, or - on another tree - formats it after all)
+    # is taken from `falco fmt FILE`, never assumed
+    bad_pool = []
+    for c, l in inputs + [(b"sub vcl_recv {\n", "parse error"), (b'set req.http.X = "1";\n', "snippet")]:
+        if len(bad_pool) >= (10 if thorough else 5):
+            break
+        d = os.path.join(root, "probe")
+        arg, _, _, _ = build_layout(d, "regular", c, 0o644)
+        rc, out, err = sh([FALCO, "fmt", arg])
+        if rc in (1, 2):
+            bad_pool.append((c, rc, "exit %d: %s" % (rc, l)))
     multi_runs = 0
     multi_cases = []
-    if len(ok_pool) >= 2:
+    if len(ok_pool) >= 2 and bad_pool:
         for t in range(40 if thorough else 7):
             nfiles = rng.choice([2, 3, 3, 4])
             files = [rng.choice(ok_pool) + ("ok",) for _ in range(nfiles)]
@@ -544,7 +554,7 @@ def run(ctx):
             if bad:
                 failed = True
                 exp.append(c)
-                exp_exit = 1 if kindf != "formatter crash" else None
+                exp_exit = 2 if kindf.startswith("exit 2") else 1
             else:
                 exp.append(o)
         got = [open(os.path.join(d, n_), "rb").read() if os.path.exists(os.path.join(d, n_)) else None for n_ in names]
@@ -556,7 +566,7 @@ def run(ctx):
         if got != exp:
             ctx.violation("fmt -w with several files: end state differs from the composition of the single-file protocol "
                           "(files before the failing one formatted, it and the later ones untouched); %s at file %d, %s" % (how, k, form), rep)
-        if (exp_exit is not None and rc2 != exp_exit) or (exp_exit is None and rc2 in (0, 1)):
+        if rc2 != exp_exit:
             ctx.violation("fmt -w with several files: exit status %s, expected %s (%s at file %d)" % (rc2, exp_exit, how, k), rep)
         if sorted(os.listdir(d)) != names:
             ctx.violation("fmt -w with several files left extra files behind: %s" % sorted(os.listdir(d)), rep)
